@@ -270,10 +270,10 @@ class ProxyProtocolV2(object):
             data = cls.__read_pp_data(sock, 16, initial)
             cmd, family, _, addr_len = cls.__parse_pp_data(data)
             addr_data = cls.__read_pp_data(sock, addr_len, b'')
-            ret = cls.__parse_pp_addresses(family, addr_data)
             if cmd == 'local':
+                # The address block of a LOCAL header is to be ignored.
                 raise LocalConnection()
-            return ret
+            return cls.__parse_pp_addresses(family, addr_data)
         except struct.error:
             raise AssertionError('Invalid proxy protocol data')
 
